@@ -118,10 +118,26 @@ class World:
         self.scripted = {}
 
 
+_var = {}
+
+
+def var_bytes_io():
+    """a byte communicator with replies of variable length, as the BytesIO documentation prescribes: communicate() is
+    called with the length of the reply header, getFullReply reads the rest (here: as many bytes as the request had)"""
+    if not _var:
+        from frappy.io import BytesIO
+
+        class VarBytesIO(BytesIO):
+            def getFullReply(self, request, replyheader):
+                return replyheader + self.readBytes(len(request))
+        _var['cls'] = VarBytesIO
+    return _var['cls']
+
+
 def make_node(kind, wait_before=0, eol=None):
     from vf import nodes
     from frappy.io import StringIO, BytesIO
-    cls = StringIO if kind == 'string' else BytesIO
+    cls = StringIO if kind == 'string' else (var_bytes_io() if kind == 'bytesvar' else BytesIO)
     cfg = {'cls': cls, 'uri': 'tcp://dev:5000', 'timeout': {'value': TIMEOUT}, 'pollinterval': {'value': POLLINTERVAL}}
     if wait_before:
         cfg['wait_before'] = {'value': wait_before}
@@ -141,7 +157,8 @@ def do_op(io, kind, op, sched, eol='\n'):
     t0 = sched.now
     try:
         if name == 'comm':
-            res = io.communicate(arg) if kind == 'string' else io.communicate(arg.encode() + eol.encode(), len(arg) + 2 + len(eol))
+            res = io.communicate(arg) if kind == 'string' else \
+                io.communicate(arg.encode() + eol.encode(), 2 if kind == 'bytesvar' else len(arg) + 2 + len(eol))
             res = res if kind == 'string' else res.decode()[:-len(eol)]
         elif name == 'write':
             io.writeline(arg)
@@ -150,7 +167,8 @@ def do_op(io, kind, op, sched, eol='\n'):
             if kind == 'string':
                 res = io.multicomm([tuple(r) for r in arg])
             else:
-                res = [r.decode().rstrip('\n') for r in io.multicomm([(r[0].encode() + b'\n', len(r[0]) + 3, r[2]) for r in arg])]
+                res = [r.decode().rstrip('\n') for r in io.multicomm([(r[0].encode() + b'\n', 2 if kind == 'bytesvar' else len(r[0]) + 3, r[2])
+                                                                      for r in arg])]
         return (name, arg, 'ok', res, t0, sched.now)
     except Exception as e:      # noqa
         from frappy.errors import CommunicationFailedError
@@ -346,6 +364,10 @@ def cases(tier):
         res.append({'name': f'{name}/bytes', 'kind': 'bytes', 'threads': CASES[name],
                     'bound': 0 if seq else 2, 'dev': 3 if seq else (1 if quick else 2), 'total': None if seq else (2 if quick else 3),
                     'nanswers': len(ANSWERS)})
+    # variable-length replies (header + tail read by getFullReply)
+    for name in (['two-comm'] if quick else ['two-comm', 'multi-vs-comm', 'faults-two']):
+        res.append({'name': f'{name}/bytesvar', 'kind': 'bytesvar', 'threads': CASES[name],
+                    'bound': 2, 'dev': 1 if quick else 2, 'total': 2 if quick else 3, 'nanswers': len(ANSWERS)})
     return res
 
 
@@ -465,7 +487,7 @@ def run(ctx):
     cmd = 'ABCDE' if ctx.tier == 'quick' else 'ABCDEFGH'
     nmask = 1 << (len(cmd) + 2)
     step = max(nmask // 32, 1)
-    shards = [(k, cmd, lo, min(lo + step, nmask), '\n') for k in ('string', 'bytes') for lo in range(0, nmask, step)]
+    shards = [(k, cmd, lo, min(lo + step, nmask), '\n') for k in ('string', 'bytes', 'bytesvar') for lo in range(0, nmask, step)]
     for eol in ('\r\n', ';;;'):       # multi-byte end-of-line markers: a chunk boundary may fall inside the marker
         nm = 1 << (len(cmd) + 1 + len(eol))
         st = max(nm // 32, 1)
